@@ -19,20 +19,20 @@ var c10GroupVocab = []string{"container", "a", "ab", "abc", "b", "x", "y", "tier
 
 // c10Spec is the structured form of the generated query.
 type c10Spec struct {
-	Sel     string   `json:"sel"`
-	RangeNs int64    `json:"range"`
-	Kind    string   `json:"kind"` // plain | vec | unwrap | binop
-	SelB    string   `json:"sel_b,omitempty"`
+	Sel     string `json:"sel"`
+	RangeNs int64  `json:"range"`
+	Kind    string `json:"kind"` // plain | vec | unwrap | binop
+	SelB    string `json:"sel_b,omitempty"`
 	// Pipe is appended to every selector (labels derived from the line).
 	Pipe string `json:"pipe,omitempty"`
 	// PipeB, if set, replaces Pipe for the second operand of a binary operation.
 	PipeB string `json:"pipe_b,omitempty"`
 	// Outer is a second vector aggregation around a "vec" query.
-	Outer *c10Outer `json:"outer,omitempty"`
-	BinOp   string   `json:"bin_op,omitempty"` // + and or unless
-	VecOp   string   `json:"vec_op,omitempty"`
-	Without bool     `json:"without,omitempty"`
-	Labels  []string `json:"labels,omitempty"`
+	Outer   *c10Outer `json:"outer,omitempty"`
+	BinOp   string    `json:"bin_op,omitempty"` // + and or unless
+	VecOp   string    `json:"vec_op,omitempty"`
+	Without bool      `json:"without,omitempty"`
+	Labels  []string  `json:"labels,omitempty"`
 }
 
 // c10Outer is the outer vector aggregation of a nested query.
@@ -213,7 +213,7 @@ type c10Val struct {
 
 // c10Side computes, from the log path's view of the same samples, the vector
 // the query (or one operand of a binary operation) must produce at every step.
-func c10Side(t *testing.T, p *Plan, spec c10Spec, sel string, pipe string, steps []int64, st *Stats) (map[int64]map[string]c10Val, int, map[int64]int, *Violation) {
+func c10Side(t *testing.T, p *Plan, spec c10Spec, sel string, pipe string, steps []int64, st *Stats, dropEmpty bool) (map[int64]map[string]c10Val, int, map[int64]int, *Violation) {
 	// Reference partition: the same world through the log path, which keys
 	// streams by a sorted, quoted rendering of the label set.
 	ref := *p
@@ -237,8 +237,18 @@ func c10Side(t *testing.T, p *Plan, spec c10Spec, sel string, pipe string, steps
 	}
 	var ents []ent
 	for _, s := range ro.Result.Streams {
+		labels := s.Labels
+		if dropEmpty {
+			// the other accepted reading: an empty label is the same as no label
+			labels = map[string]string{}
+			for k, v := range s.Labels {
+				if v != "" {
+					labels[k] = v
+				}
+			}
+		}
 		for _, e := range s.Entries {
-			ents = append(ents, ent{s.Labels, int64(e.T)})
+			ents = append(ents, ent{labels, int64(e.T)})
 		}
 	}
 	type innerT struct {
@@ -384,79 +394,88 @@ func (propC10) Check(t *testing.T, p *Plan, st *Stats) *Violation {
 		labels map[string]string
 		points []CPoint
 	}
-	exp := map[string]*series{}
-	totals := map[int64]int{}
-	nEnts := 0
-	emit := func(T int64, vec map[string]c10Val) {
-		tsec := float64(T/1_000_000) / 1000
-		for _, k := range sortedKeys(vec) {
-			s := exp[k]
-			if s == nil {
-				s = &series{labels: vec[k].labels}
-				exp[k] = s
+	// expected computes what the query must return, under one of the two
+	// accepted readings of an empty-valued label (a label of its own, or no label).
+	expected := func(dropEmpty bool) (*Canon, map[int64]int, int, int, *Violation) {
+		totals := map[int64]int{}
+		nEnts := 0
+		exp := map[string]*series{}
+		emit := func(T int64, vec map[string]c10Val) {
+			tsec := float64(T/1_000_000) / 1000
+			for _, k := range sortedKeys(vec) {
+				s := exp[k]
+				if s == nil {
+					s = &series{labels: vec[k].labels}
+					exp[k] = s
+				}
+				s.points = append(s.points, CPoint{T: tsec, V: fmtVal(vec[k].v)})
 			}
-			s.points = append(s.points, CPoint{T: tsec, V: fmtVal(vec[k].v)})
 		}
+		left, n1, tot1, v := c10Side(t, p, spec, spec.Sel, spec.Pipe, steps, st, dropEmpty)
+		if v != nil {
+			return nil, nil, 0, 0, v
+		}
+		nEnts, totals = n1, tot1
+		if spec.Kind == "binop" {
+			pipeB := spec.Pipe
+			if spec.PipeB != "" {
+				pipeB = spec.PipeB
+			}
+			right, n2, _, v := c10Side(t, p, spec, spec.SelB, pipeB, steps, st, dropEmpty)
+			if v != nil {
+				return nil, nil, 0, 0, v
+			}
+			nEnts += n2
+			for _, T := range steps {
+				l, r := left[T], right[T]
+				out := map[string]c10Val{}
+				switch spec.BinOp {
+				case "+":
+					for k, lv := range l {
+						if rv, ok := r[k]; ok {
+							out[k] = c10Val{lv.labels, lv.v + rv.v}
+						}
+					}
+				case "and":
+					for k, lv := range l {
+						if _, ok := r[k]; ok {
+							out[k] = lv
+						}
+					}
+				case "unless":
+					for k, lv := range l {
+						if _, ok := r[k]; !ok {
+							out[k] = lv
+						}
+					}
+				case "or":
+					for k, lv := range l {
+						out[k] = lv
+					}
+					for k, rv := range r {
+						if _, ok := l[k]; !ok {
+							out[k] = rv
+						}
+					}
+				}
+				emit(T, out)
+			}
+		} else {
+			for _, T := range steps {
+				emit(T, left[T])
+			}
+		}
+		var expSeries []CSeries
+		for _, k := range sortedKeys(exp) {
+			expSeries = append(expSeries, CSeries{Labels: exp[k].labels, Key: k, Points: exp[k].points})
+		}
+		return &Canon{Series: expSeries}, totals, nEnts, len(expSeries), nil
 	}
-	left, n1, tot1, v := c10Side(t, p, spec, spec.Sel, spec.Pipe, steps, st)
+	expCanon, totals, nEnts, nExp, v := expected(false)
 	if v != nil {
 		return v
 	}
-	nEnts, totals = n1, tot1
-	if spec.Kind == "binop" {
-		pipeB := spec.Pipe
-		if spec.PipeB != "" {
-			pipeB = spec.PipeB
-		}
-		right, n2, _, v := c10Side(t, p, spec, spec.SelB, pipeB, steps, st)
-		if v != nil {
-			return v
-		}
-		nEnts += n2
-		for _, T := range steps {
-			l, r := left[T], right[T]
-			out := map[string]c10Val{}
-			switch spec.BinOp {
-			case "+":
-				for k, lv := range l {
-					if rv, ok := r[k]; ok {
-						out[k] = c10Val{lv.labels, lv.v + rv.v}
-					}
-				}
-			case "and":
-				for k, lv := range l {
-					if _, ok := r[k]; ok {
-						out[k] = lv
-					}
-				}
-			case "unless":
-				for k, lv := range l {
-					if _, ok := r[k]; !ok {
-						out[k] = lv
-					}
-				}
-			case "or":
-				for k, lv := range l {
-					out[k] = lv
-				}
-				for k, rv := range r {
-					if _, ok := l[k]; !ok {
-						out[k] = rv
-					}
-				}
-			}
-			emit(T, out)
-		}
-	} else {
-		for _, T := range steps {
-			emit(T, left[T])
-		}
-	}
-	var expSeries []CSeries
-	for _, k := range sortedKeys(exp) {
-		expSeries = append(expSeries, CSeries{Labels: exp[k].labels, Key: k, Points: exp[k].points})
-	}
-	expCanon := &Canon{Series: expSeries}
+	var expCanonB *Canon
 	var firstRender string
 	for vi := range p.Variants {
 		o := Exec(t, p, vi, ExecOpts{})
@@ -485,7 +504,7 @@ func (propC10) Check(t *testing.T, p *Plan, st *Stats) *Violation {
 					}
 				}
 				return viol(vi, "C10(1:duplicate-series)", "at most one series per label set",
-					fmt.Sprintf("%d series carry %s (result has %d series, expected %d)", n, clip(got.Series[i].Key, 300), len(got.Series), len(expSeries)))
+					fmt.Sprintf("%d series carry %s (result has %d series, expected %d)", n, clip(got.Series[i].Key, 300), len(got.Series), nExp))
 			}
 		}
 		// (2) conservation of per-step totals (where the operator conserves them).
@@ -508,6 +527,26 @@ func (propC10) Check(t *testing.T, p *Plan, st *Stats) *Violation {
 		gotR := (&Canon{Series: got.Series}).Render()
 		expR := expCanon.Render()
 		if gotR != expR {
+			// The other accepted reading: empty-valued labels are no labels at all,
+			// consistently (series identity and reported label set alike).
+			if expCanonB == nil {
+				var vb *Violation
+				expCanonB, _, _, _, vb = expected(true)
+				if vb != nil {
+					return vb
+				}
+			}
+			if gotR == expCanonB.Render() {
+				if st != nil {
+					st.Probe("accepted_under_empty_equals_absent_reading")
+				}
+				if vi == 0 {
+					firstRender = gotR
+				} else if gotR != firstRender {
+					return viol(vi, "C10(4:map-order-independence)", clip(firstRender, 400), clip(gotR, 400))
+				}
+				continue
+			}
 			return viol(vi, "C10(3:partition)", "series = distinct label sets of the samples: "+clip(expR, 600), clip(gotR, 600))
 		}
 		// (4) identical across map orders.
@@ -518,7 +557,7 @@ func (propC10) Check(t *testing.T, p *Plan, st *Stats) *Violation {
 		}
 		if st != nil && vi == 0 {
 			multi := false
-			for _, s := range expSeries {
+			for _, s := range expCanon.Series {
 				for _, pt := range s.Points {
 					if pt.V != "1" {
 						multi = true
@@ -526,16 +565,16 @@ func (propC10) Check(t *testing.T, p *Plan, st *Stats) *Violation {
 				}
 			}
 			st.ProbeIf(multi, "several_samples_share_a_label_set")
-			st.ProbeIf(len(expSeries) >= 2, "several_series")
-			st.ProbeIf(len(expSeries) == 0, "empty_result")
+			st.ProbeIf(nExp >= 2, "several_series")
+			st.ProbeIf(nExp == 0, "empty_result")
 			if nEnts >= 2 {
 				lbls := append([]string(nil), spec.Labels...)
 				sort.Strings(lbls)
 				st.Probe("kind_" + spec.Kind + spec.BinOp)
-			st.ProbeIf(spec.Pipe != "", "labels_derived_from_line")
-			st.ProbeIf(spec.Outer != nil, "nested_vector_aggregation")
-			st.ProbeIf(spec.PipeB != "", "typed_vs_string_json_operands")
-			st.Signature(fmt.Sprintf("%s%s|%s|%v|%v|inst=%s|series=%d|ents=%d", spec.Kind, spec.BinOp, spec.VecOp, spec.Without, lbls, p.Tags["instant"], len(expSeries), nEnts))
+				st.ProbeIf(spec.Pipe != "", "labels_derived_from_line")
+				st.ProbeIf(spec.Outer != nil, "nested_vector_aggregation")
+				st.ProbeIf(spec.PipeB != "", "typed_vs_string_json_operands")
+				st.Signature(fmt.Sprintf("%s%s|%s|%v|%v|inst=%s|series=%d|ents=%d", spec.Kind, spec.BinOp, spec.VecOp, spec.Without, lbls, p.Tags["instant"], nExp, nEnts))
 			}
 		}
 	}
